@@ -103,15 +103,15 @@ Fixpoint to_expr (tbl : list oracle_entry) (e : fexpr) : expr (FNum tbl) :=
 
 (* expected: the outcome and the value of the context's elementary-uid counter afterwards
    (only compared when the call returned normally) *)
-Definition model_implicit (fixed : bool) (tbl : list oracle_entry) (ctx ne : Z) (captured : list fu) (e : fexpr)
+Definition model_implicit (tbl : list oracle_entry) (ctx ne : Z) (captured : list fu) (e : fexpr)
            (x_min x_max eps : float) : sobs * Z :=
   let N := FNum tbl in
-  match implicit_gen N (fn_of_expr N captured (to_expr tbl e)) fixed (mkS ctx ne 0 [] [] [] []) x_min x_max eps with
+  match implicit_real N (fn_of_expr N captured (to_expr tbl e)) (mkS ctx ne 0 [] [] [] []) x_min x_max eps with
   | Err ex => (XExn ex, 0%Z)
   | Ok (s', o) => (obs_obj o, s_ne s')
   end.
 Definition case_implicit tbl ctx ne captured e x_min x_max eps exp exp_ne : Z :=
-  let '(got, ne') := model_implicit false tbl ctx ne captured e x_min x_max eps in
+  let '(got, ne') := model_implicit tbl ctx ne captured e x_min x_max eps in
   match exp with
   | XExn _ => agree got exp
   | _ => if Z.eqb ne' exp_ne then agree got exp else 1%Z
